@@ -5,8 +5,8 @@ ELF image -> binary table with one record per instruction (address, memory opera
 base/index/scale/disp | rip-relative target | vector index | string | implicit stack | undecoded).
 run_step(...): run k7_step on a script; parse SEG/CASE lines.
 """
-import os, re, struct, subprocess, json
-from . import common
+import os, re, struct, subprocess, json, shutil
+from . import common, c19_direct
 
 REC = struct.Struct("<IBBBBqHBBB3x")
 assert REC.size == 24
@@ -479,6 +479,8 @@ def plan(rng, tier, variants, key_variants, keylen, ivlen):
 
 def task_lines(t):
     """script lines of a task (groups of t['batch'] consecutive lines)"""
+    if t.get("direct"):
+        return c19_direct.task_lines(t)      # api=direct:<name>: one call per group
     iv = t["iv"].hex() if t["iv"] else "-"
     L = []
     if t["batch"] == 1:
@@ -493,7 +495,15 @@ def task_lines(t):
 
 
 def task_tag(t):
+    if t.get("direct"):
+        return "%s_direct_%s_%s_%d" % (t["variant"].replace(":", ""), t["api"], "x".join(str(x) for x in t["lens"]), t["off"])
     return "%s_%s_%d_%d_%d_b%d" % (t["variant"].replace(":", ""), t["algo"], t["dir"], t["len"], t["off"], t["batch"])
+
+
+def class_str(t):
+    if t.get("direct"):
+        return c19_direct.class_str(t["api"], t["lens"], t["off"])
+    return "%s/%d/%d/%d/b%d" % (t["algo"], t["dir"], t["len"], t["off"], t["batch"])
 
 
 def seg_key(s):
@@ -550,10 +560,19 @@ def source_of(so, rel):
     """lib-relative address -> 'function file:line' (addr2line; NASM objects carry line info as well)"""
     key = (so, rel)
     if key not in _sym_cache:
-        p = common.run(["addr2line", "-f", "-e", so, "%x" % rel], timeout=120)
-        t = p.stdout.split()
-        fn = t[0] if t else "?"
-        loc = t[1] if len(t) > 1 else "?"
+        # GNU addr2line 2.40 names the compilation unit instead of the included header for inlined code of DWARF 5
+        # objects (kasumi_sse.c:345 for kasumi_internal.h:345); llvm-addr2line reads the file index correctly and
+        # handles the NASM objects as well.  Fall back to GNU addr2line when it is missing or has no answer.
+        fn, loc = "?", "?"
+        for tool in ("llvm-addr2line", "addr2line"):
+            if shutil.which(tool) is None:
+                continue
+            p = common.run([tool, "-f", "-e", so, "0x%x" % rel], timeout=120)
+            t = p.stdout.split()
+            fn = t[0] if t else "?"
+            loc = t[1] if len(t) > 1 else "?"
+            if not loc.startswith("?"):
+                break
         loc = re.sub(r"^.*?/lib/", "lib/", loc)
         _sym_cache[key] = (fn, loc)
     return _sym_cache[key]
